@@ -58,6 +58,12 @@ def huge_stage(configs):
     return {"name": "huge", "cmd": "huge", "configs": cfgs(configs), "shards": 1}
 
 
+def large_stage(configs, emu=False):
+    """Haystacks of 256 KiB - 2 MiB (thorough: up to 33 MiB) at nine start alignments with needle bytes directly outside the slice:
+    size-gated code paths (block-skipping loops, page-wise walks, folded lane counters, search-time tables)."""
+    return {"name": "large", "cmd": "large", "configs": cfgs(configs + (EMU if emu else [])), "shards": shards(8, 16, 4, 8)}
+
+
 def iter_stages():
     return [
         {"name": "iter-exh", "cmd": "iter-exh", "configs": cfgs(NATIVE + EMU), "shards": shards(4, 8, 4, 8)},
@@ -103,27 +109,27 @@ PLANS = {
                 "Non-trivial: the first match lies beyond the first vector of the implementation under test, or the haystack is non-empty "
                 "and shorter than one vector, or the match is on the 2nd/3rd needle. Distinct: enumerated cases are distinct by "
                 "construction; generated cases are deduplicated by a hash of (needles, haystack, placement).",
-        "stages": byte_stages() + [miri_stage("B", quick=240, thorough=6000, targets=["M-a64", "M-i686", "M-s390x"], per_shard=60), huge_stage(NATIVE)],
+        "stages": byte_stages() + [miri_stage("B", quick=240, thorough=6000, targets=["M-a64", "M-i686", "M-s390x"], per_shard=60), huge_stage(NATIVE), large_stage(NATIVE, emu=True)],
     },
     "C02": {
         "technique": 'property-based testing: bounded-exhaustive enumeration on the END alignment + proptest layouts against a naive oracle; emulated NEON/simd128, forced CPU levels, Miri sample, >4 GiB stage',
         "rule": "as C01 with the END alignment as the enumerated axis (the reverse scan aligns on the end pointer) and rfind/rfind_raw/"
                 "memrchr* judged against the naive last position. Non-trivial: the last match lies before the final vector of the scan, "
                 "or 0 < len < one vector, or the match is on the 2nd/3rd needle.",
-        "stages": byte_stages() + [miri_stage("B", quick=240, thorough=6000, targets=["M-a64", "M-i686", "M-s390x"], per_shard=60), huge_stage(NATIVE)],
+        "stages": byte_stages() + [miri_stage("B", quick=240, thorough=6000, targets=["M-a64", "M-i686", "M-s390x"], per_shard=60), huge_stage(NATIVE), large_stage(NATIVE, emu=True)],
     },
     "C03": {
         "technique": 'property-based testing: needle-derived structured generation (proptest, shrinking) + exhaustive small-alphabet (needle, haystack) pairs against a naive oracle',
         "rule": SUB_GEN + "Judged: memmem::find, Finder::find, FinderBuilder(Prefilter::None)::find against the naive leftmost occurrence. "
                 "Non-trivial: needle length >= 2 and it occurs, or a window sharing >= half of the needle's prefix precedes the answer. "
                 "Distinct by hash of (needle, haystack); enumerated pairs are distinct by construction.",
-        "stages": sub_stages() + [huge_stage(["N-auto", "N-fb"])],
+        "stages": sub_stages() + [huge_stage(["N-auto", "N-fb"]), large_stage(NATIVE)],
     },
     "C04": {
         "technique": 'property-based testing: needle-derived structured generation (proptest, shrinking) + exhaustive small-alphabet pairs against a naive oracle (reverse)',
         "rule": SUB_GEN + "Judged: memmem::rfind and FinderRev::rfind against the naive rightmost occurrence (empty needle -> haystack length). "
                 "Non-trivial as C03.",
-        "stages": sub_stages(short=False) + [huge_stage(["N-auto"])],
+        "stages": sub_stages(short=False) + [huge_stage(["N-auto"]), large_stage(NATIVE)],
     },
     "C06": {
         "technique": 'stateful property-based testing: complete next/next_back call-tree exploration per generated haystack against a model deque, size_hint validity at every node',
@@ -133,7 +139,7 @@ PLANS = {
                 "memrchr*_iter, iter() of every One/Two/Three. Enumerated: every match bitmap of haystacks up to 10 (12) bytes; generated: lengths "
                 "0..=1 KiB (4 KiB), sparse / clustered-inside-one-vector / dense layouts. Non-trivial: >= 2 matches of which two are less than "
                 "one vector apart (the two ends meet inside one vector on some explored history). Distinct by hash of (needles, haystack).",
-        "stages": iter_stages() + [huge_stage(NATIVE), miri_stage("I", quick=120, thorough=4000, targets=["M-a64", "M-i686"], per_shard=60)],
+        "stages": iter_stages() + [huge_stage(NATIVE), large_stage(NATIVE, emu=True), miri_stage("I", quick=120, thorough=4000, targets=["M-a64", "M-i686"], per_shard=60)],
     },
     "C07": {
         "technique": 'property-based testing: exhaustive enumeration + generated densities against a naive count; count() of clones at every node of the iterator call tree',
@@ -142,7 +148,7 @@ PLANS = {
                 "all-but-one; plus count() of a clone taken at EVERY node of the complete next/next_back call tree (partially consumed iterators) "
                 "against the model's remaining count. Non-trivial: >= 2 matches in different regions of the scan, or an iterator advanced from "
                 "at least one end.",
-        "stages": byte_stages() + iter_stages() + [huge_stage(NATIVE), miri_stage("B", quick=120, thorough=4000, targets=["M-a64", "M-i686", "M-s390x"], per_shard=60)],
+        "stages": byte_stages() + iter_stages() + [huge_stage(NATIVE), large_stage(NATIVE, emu=True), miri_stage("B", quick=120, thorough=4000, targets=["M-a64", "M-i686", "M-s390x"], per_shard=60)],
     },
     "C08": {
         "technique": 'model-based property testing: literal greedy non-overlapping model vs complete iterator runs, size_hint validity before every step',
@@ -150,7 +156,7 @@ PLANS = {
                 "the into_owned() forms, driven to the end + 3 extra calls, against the literal greedy model (leftmost, resume at i+max(len,1); mirror "
                 "image from the right; empty needle yields every offset once); size_hint of FindIter must bracket the remaining count before every "
                 "step. Non-trivial: needle length >= 2 and it occurs, or a near miss precedes the answer.",
-        "stages": sub_stages(short=False) + [huge_stage(["N-auto"])],
+        "stages": sub_stages(short=False) + [huge_stage(["N-auto"]), large_stage(NATIVE)],
     },
     "C11": {
         "technique": 'property-based testing with a validity predicate (candidate <= first occurrence, pair bytes present): exhaustive small spaces + generated large ones',
@@ -271,7 +277,7 @@ PLANS = {
             {"name": "pair-pbt", "cmd": "pair-pbt", "configs": cfgs(["N-auto"]), "shards": shards(2, 8)},
             {"name": "c10", "cmd": "c10", "configs": cfgs(["N-auto", "N-fb"]), "shards": shards(4, 8)},
             {"name": "history", "cmd": "history", "configs": cfgs(["N-auto"]), "shards": shards(4, 8)},
-            huge_stage(["N-auto", "N-fb"]),
+            huge_stage(["N-auto", "N-fb"]), large_stage(NATIVE),
         ],
     },
     "C15": {
@@ -317,6 +323,7 @@ PLANS = {
                 "into_owned and shiftor::Finder::new must register >= 1 allocation, otherwise the run is inconclusive. Non-trivial: needle >= 2 and haystack >= 16.",
         "stages": [
             {"name": "alloc", "cmd": "alloc", "configs": cfgs(NATIVE + EMU), "shards": shards(16, 16, 8, 8), "args": ["--scale", "5"]},
+            large_stage(NATIVE),
         ],
     },
     "C18": {
@@ -351,6 +358,7 @@ HOOK_COMMITS = [
     "a3e7318bfab83ebffd6a877fded85cccb882f3af",  # is_available() honours forced CPU level
     "2ae7d5f74b653c3461820286399d965263608bfb",  # step-counter ticks
     "0ea2fbcd5d271926b2a0cf8f6901f26efdff3d8d",  # event markers
+    "9963bdaa7dd572c7718e2d7ab82a45b743e59a4b",  # one tick per dispatched memchr-family call
 ]
 
 NOT_YET = {}
